@@ -86,3 +86,18 @@ func DebugPhiArg(r *Run, rel, fn, callee string, k int) {
 		}
 	}
 }
+
+// DebugUniversalE6 lists module-wide early-success returns inside loops of error-only functions.
+func DebugUniversalE6(r *Run) {
+	for _, f := range r.P.SubjectFuncs() {
+		if f.Parent() != nil || !errResultOnly(f) || len(allLoopHeads(f)) == 0 {
+			continue
+		}
+		rep := core.NewReport("dbg", "quick", 0)
+		r2 := &Run{P: r.P, E: r.E, R: rep}
+		r2.checkNoEarlySuccess("x", f, "-")
+		for _, o := range rep.Obligations {
+			fmt.Printf("%s %s: %s\n", o.Status, core.FuncName(f), o.Detail)
+		}
+	}
+}
